@@ -36,6 +36,23 @@ def gen_history(rng):
     return {"cfg": {"parents": [[i, p] for i, p in sorted(t.parent.items())], "start": start}, "ops": ops}
 
 
+def long_histories():
+    """Header-only sync (the start block is not seen yet / is far up) crossing the 1000-header file boundary: the full
+    file is written when the boundary is crossed; the peer repeats its headers after an error; then a reorg across
+    the boundary, shutdown, restart."""
+    res = []
+    for start, n in ((5000, 1004), (1002, 1006)):
+        main = list(range(1, n + 1))
+        par = [[i, i - 1] for i in main] + [[3000, 998], [3001, 3000], [3002, 3001]] + [[i, i - 1] for i in range(n + 1, n + 7)]
+        first = [[i, i - 1] for i in main]
+        more = [[i, i - 1] for i in range(n + 1, n + 7)]
+        ops = [["version"], ["check"], ["headers", first], ["headers", first], ["headers", more], ["check"],
+               ["headers", first[990:] + more], ["headers", [[3000, 998], [3001, 3000], [3002, 3001]]], ["check"],
+               ["restartnode"], ["version"], ["check"], ["headers", more], ["restartnode"]]
+        res.append({"cfg": {"parents": par, "start": start}, "ops": ops})
+    return res
+
+
 def is_prefix(a, b):
     return len(a) <= len(b) and b[:len(a)] == a
 
@@ -52,6 +69,7 @@ def chains_of(trace):
 def extra(tier, rng, workdir):
     nhist = 40 if tier == "quick" else 600
     cases = [gen_history(rng.fork(31000 + i)) for i in range(nhist)]
+    cases += long_histories()[:1 if tier == "quick" else 2]
     for i, c in enumerate(cases):
         c["cfg"] = dict(c["cfg"], crash=1, rm_err=i % 2)
     res, ext = vlib.run_harness("sync", cases, workdir, tag="crash")
@@ -77,14 +95,21 @@ def extra(tier, rng, workdir):
         # single faults: every storage operation after start-up (bounded per history in the quick tier)
         nops = ex["storage_ops"]
         js = list(range(1, nops + 1))
-        if tier == "quick" and len(js) > 40:
+        cap = (40 if ci < nhist else 16) if tier == "quick" else 400
+        if len(js) > cap:
+            # every write / remove is tried; reads are sampled
+            muts = sorted(set(ex.get("mutation_ops") or []))
             r = rng.fork(ci)
-            js = sorted(r.shuffle(js)[:40])
+            if len(muts) > cap:
+                muts = sorted(r.shuffle(muts)[:cap])
+            rest = [j for j in js if j not in set(muts)]
+            js = sorted(set(muts + r.shuffle(rest)[:max(0, cap - len(muts))]))
         for j in js:
             fault_runs.append((ci, j))
     fcases = [{"cfg": dict(cases[ci]["cfg"], crash=0, fail_at=j), "ops": cases[ci]["ops"]} for ci, j in fault_runs]
     fres, fext = vlib.run_harness("sync", fcases, workdir, tag="fault") if fcases else ([], [])
     hit = 0
+    recheck = []
     for (ci, j), fc, tr, ex in zip(fault_runs, fcases, fres, fext):
         if not ex["fault_hit"]:
             continue
@@ -95,11 +120,25 @@ def extra(tier, rng, workdir):
         al = ex.get("after_fault_load") or [1]
         load_ok = al[0] == 0 and al[1] == 1 and any(is_prefix(al[2:], ch) for ch in observed)
         panicked = any(ob and ob[0] == 2 for ob in tr)
+        # every state after the fault, not only the last one: an inconsistent chain in memory must be
+        # recovered by a restart AT THAT POINT (checked by a second run below)
+        bad_steps = [k for k, ob in enumerate(tr) if len(ob) >= 10 and ob[0] != 2 and (ob[7] != 1 or ob[8] != 1)]
+        if bad_steps:
+            recheck.append((ci, j, bad_steps[0], fc, tr))
         if panicked or not (mem_ok or load_ok) or not load_ok:
             what = "panic after fault" if panicked else ("restart after the fault does not load a linked single-branch chain" if not load_ok
                                                          else "inconsistent")
             failures.append({"suite": "fault", "checker": "single_fault", "step": j, "cfg": fc["cfg"], "ops": fc["ops"],
                              "expected": None, "observed": al, "what": what, "trace": tr})
+    if recheck:
+        rc_cases = [{"cfg": fc["cfg"], "ops": fc["ops"][:k + 1] + [["restartnode"]]} for (_, _, k, fc, _) in recheck]
+        rc_res, _ = vlib.run_harness("sync", rc_cases, workdir, tag="fault_restart")
+        for (ci, j, k, fc, tr), rtr in zip(recheck, rc_res):
+            last = rtr[-1]
+            if not (len(last) >= 10 and last[0] == 0 and last[7] == 1 and last[8] == 1):
+                failures.append({"suite": "fault", "checker": "single_fault", "step": j, "cfg": fc["cfg"], "ops": rc_cases[0]["ops"] if False else fc["ops"][:k + 1] + [["restartnode"]],
+                                 "expected": None, "observed": last[:12], "trace": rtr,
+                                 "what": "after the fault the chain in memory is not hash-linked / not inverse (op %d) and a restart at that point does not recover a consistent chain" % k})
     # repository level with the real file size: histories crossing the 1000-header boundaries
     rcases = []
     for i in range(12 if tier == "quick" else 200):
